@@ -52,6 +52,11 @@ def handle (s : S) : List String → S × String
         (s', s!"specviol after-flush-peer-has-not-everything missing={(s'.writtenAll.length - s'.connAll.length)}")
       else (s', v)
     | none => (s, "bad-op")
+  | ["dl", accepted, got] =>
+    let a := if accepted == "-" then "" else accepted
+    let g := if got == "-" then "" else got
+    (s, if g.length ≤ a.length && (a.take g.length).toString == g then "ok"
+        else s!"specviol after a write deadline expired during a flush the connection received {got}, which is not a prefix of the accepted bytes {accepted}")
   | ["iso", want, got] =>
     (s, if want == got then "ok" else s!"specviol a fresh transport of the same configuration delivered {got} to its connection for the bytes {want} written to it (bytes of another connection, or its own bytes elsewhere)")
   | ["feed", chunks] =>
